@@ -304,6 +304,7 @@ def run(prop, tier, seed, replay, scratch, t0):
             translator=build['translate'], build_ok=build['build_ok'], audit_ok=build['audit_ok'], leanchecker=build.get('leanchecker', 'not run (thorough tier only)'),
             evaluations=len(cases) + widened, distinct_nontrivial=len(nontrivial), rule=rule,
             samples=samples, out_of_model_skipped=n_oom, impl_timeouts=n_hang,
+            model_compared=sum(1 for c, b in zip(cases, mr) if b is not None and b.get('kind') != 'oom' and (c.get('meta', {}).get('clicorr') or not c.get('meta', {}).get('nocorr'))),
             disagreements=len(diffs), oracle_failures=len(failures), known_findings_reproduced=sorted(known_hit),
             input_distribution=dict(sorted(dist.items())), compared_fields=list(fields),
             explanation=getattr(mod, 'EXPLANATION', ''),
